@@ -410,7 +410,13 @@ func traceToCase(spec *PipeSpec, res *PipeResult, evs []pevent, status string) (
 		tableEnd = res.StateAtQuiet
 	}
 	da := "false"
-	term := fmt.Sprintf("EC %d (Cfg %d false %s) %s %s %s %d %d", spec.Workers, spec.MaxRedirect, da, coqList(rowIDs), coqList(out), coqBool(complete), tableEnd, spec.MaxRetry)
+	// wedged: the watchdog fired while seeds were still tracked and NOTHING had happened for 35 s (every legitimate wait
+	// of the crawler - retry sleeps, limiter penalties capped at 30 s - is shorter than that)
+	wedged := res != nil && res.TimedOut && !res.StopCalled && res.TableAtTimeout > 0 && res.IdleAtTimeout >= 35000
+	if wedged {
+		note(fmt.Sprintf("crawl wedged: %d seed(s) tracked, no event for %d ms", res.TableAtTimeout, res.IdleAtTimeout))
+	}
+	term := fmt.Sprintf("EC %d (Cfg %d false %s) %s %s %s %d %d %s", spec.Workers, spec.MaxRedirect, da, coqList(rowIDs), coqList(out), coqBool(complete), tableEnd, spec.MaxRetry, coqBool(wedged))
 	tags := []string{fmt.Sprintf("w:%d", spec.Workers), fmt.Sprintf("mca:%d", spec.MCA), fmt.Sprintf("seeds:%d", len(spec.LQRows)),
 		fmt.Sprintf("passes:%d", bucket(passes)), fmt.Sprintf("nodes:%d", bucket(maxNodes)), fmt.Sprintf("complete:%v", complete)}
 	if status != "" {
@@ -466,7 +472,7 @@ func pipeSpecFromInput(input string, dir string) *PipeSpec {
 func execPipe(input string) Result {
 	dir, err := os.MkdirTemp("", "zv-pipe-")
 	if err != nil {
-		return Result{Term: "EC 0 (Cfg 0 false false) [] [] false 0 0", Tags: []string{"mktemp-failed"}}
+		return Result{Term: "EC 0 (Cfg 0 false false) [] [] false 0 0 false", Tags: []string{"mktemp-failed"}}
 	}
 	if os.Getenv("ZV_KEEP") == "" {
 		defer os.RemoveAll(dir)
